@@ -23,7 +23,7 @@ LEVEL = "model_checking"
 ASSUMPTIONS = ["selectors symbolic, class generation concrete per leaf (executed natively)", "harness component templates built on public base classes"]
 OUTSIDE = ["with_context_key variants of the model-fitting workflow", "third-party factories"]
 KINDS = ["operation", "probe", "data-source", "payload-source", "data-sink", "payload-sink", "slice-operation", "slice-probe", "sweep-source", "sweep-operation", "sweep-probe",
-         "context-processor", "rename", "delete", "template", "io-subclass-source", "io-subclass-sink", "sliced-then-probed-pipeline"]
+         "context-processor", "rename", "delete", "template", "io-subclass-source", "io-subclass-sink", "sliced-then-probed-pipeline", "io-dual-role"]
 KEYS = ("a", "b", "out")
 
 
@@ -149,6 +149,25 @@ def _mk(kind: str, ti: int, to: int, mask: int, parent_first: bool):
         def input_data_type(cls):
             return tout
 
+    class Store(DataSource, DataSink):
+        """odd but legal: a read/write store, both a source and a sink"""
+
+        @classmethod
+        def _get_data(cls, value: int = 3):
+            return tout(value)
+
+        @classmethod
+        def output_data_type(cls):
+            return tout
+
+        @classmethod
+        def _send_data(cls, data, tag: int = 0):
+            return None
+
+        @classmethod
+        def input_data_type(cls):
+            return tin
+
     class PSnk(PayloadSink):
         """payload sink template"""
 
@@ -231,6 +250,10 @@ def _mk(kind: str, ti: int, to: int, mask: int, parent_first: bool):
         node = _pipeline_node_factory({"processor": second, "parameters": {}}, lib.QUIET)
         i = second.input_data_type()
         E.update(inp=i, out=i, keys=[], adapter_of=second, ad_in=i, ad_out=i, pnames=["tag", "mode"] if second is Snk2 else ["tag"])
+    elif kind == "io-dual-role":
+        # whichever role the framework gives a class that is both a source and a sink, node and wrapped adapter must agree
+        node = _pipeline_node_factory({"processor": Store, "parameters": {}}, lib.QUIET)
+        E.update(keys=[], mirror_only=True)
     elif kind == "sliced-then-probed-pipeline":
         # nested use: the classes generated for a slicer inside a pipeline (through Pipeline -> orchestrator)
         from semantiva.pipeline import Pipeline
@@ -249,14 +272,45 @@ def _mk(kind: str, ti: int, to: int, mask: int, parent_first: bool):
     return node, E
 
 
-def scenario(kind: str, ti: int, to: int, mask: int, parent_first: bool):
+def _sibling(kind: str) -> None:
+    """A later, different configuration that goes through the same wrapping path (different user component, so the
+    classes generated for it share qualified names with those generated for the node under test)."""
+    from semantiva.data_processors.data_slicer_factory import slice as make_slicer
+    from semantiva.pipeline.nodes._pipeline_node_factory import _pipeline_node_factory
+    from vt import lib
+
+    sweep = lambda extra: {"parameter_sweep": dict({"variables": {"t": {"values": [1, 2]}}}, **extra)}
+    cfgs = {
+        "operation": {"processor": lib.OpAdd, "parameters": {}}, "probe": {"processor": lib.PrVal, "context_key": "k2"},
+        "data-source": {"processor": lib.SrcV, "parameters": {}}, "payload-source": {"processor": lib.PSrc, "parameters": {}},
+        "data-sink": {"processor": lib.Snk, "parameters": {}}, "payload-sink": {"processor": lib.PSnk, "parameters": {}},
+        "slice-operation": {"processor": make_slicer(lib.OpAdd, lib.IntColl), "parameters": {}}, "slice-probe": {"processor": make_slicer(lib.PrVal, lib.IntColl), "context_key": "k2"},
+        "sweep-source": {"processor": lib.SrcV, "derive": sweep({"parameters": {"value": "t"}, "collection": "IntColl"})},
+        "sweep-operation": {"processor": lib.OpAdd, "derive": sweep({"parameters": {"addend": "t"}, "collection": "IntColl"})},
+        "sweep-probe": {"processor": lib.PrParam, "derive": sweep({"parameters": {"offset": "t"}}), "context_key": "k2"},
+        "context-processor": {"processor": lib.CpSum, "parameters": {}}, "rename": {"processor": "rename:x:y"}, "delete": {"processor": "delete:x"}, "template": {"processor": 'template:"{x}":y'},
+        "io-subclass-source": {"processor": lib.SrcD, "parameters": {}}, "io-subclass-sink": {"processor": lib.Snk, "parameters": {}},
+        "sliced-then-probed-pipeline": {"processor": make_slicer(lib.OpAddDef, lib.IntColl), "parameters": {}}, "io-dual-role": {"processor": lib.SrcD, "parameters": {}},
+    }
+    _pipeline_node_factory(cfgs[kind], lib.QUIET)
+
+
+def scenario(kind: str, ti: int, to: int, mask: int, parent_first: bool, later_sibling: bool = False):
     from semantiva.contracts.expectations import validate_component
 
     node, E = _mk(kind, ti, to, mask, parent_first)
+    if later_sibling:
+        _sibling(kind)  # the classes of `node` must still satisfy the catalogue after another node of the kind was generated
     ncls = type(node)
     pcls = type(node.processor)
     # ---- P1 mirroring
-    if not E.get("ctxproc"):
+    if E.get("mirror_only"):
+        ni, no, pi, po = ncls.input_data_type(), ncls.output_data_type(), pcls.input_data_type(), pcls.output_data_type()
+        if ni is not pi:
+            return Fail("C16.P1:%s:node-input-vs-wrapped" % kind, "node declares input %s, the processor it wraps declares %s" % (getattr(ni, "__name__", ni), getattr(pi, "__name__", pi)))
+        if no is not po and not (pi is not None and no is ni):  # sinks pass their input type through
+            return Fail("C16.P1:%s:node-output-vs-wrapped" % kind, "node declares output %s, the processor it wraps declares %s" % (getattr(no, "__name__", no), getattr(po, "__name__", po)))
+    elif not E.get("ctxproc"):
         if ncls.input_data_type() is not E["inp"]:
             return Fail("C16.P1:%s:node-input-type" % kind, "node declares input %s, expected %s" % (getattr(ncls.input_data_type(), "__name__", None), E["inp"].__name__))
         if ncls.output_data_type() is not E["out"]:
@@ -283,7 +337,7 @@ def scenario(kind: str, ti: int, to: int, mask: int, parent_first: bool):
 
 
 def _make(kind: str):
-    def p(ti: int, to: int, mask: int, parent_first: bool):
+    def p(ti: int, to: int, mask: int, parent_first: bool, later_sibling: bool):
         from crosshair.tracers import NoTracing
         from vt.engine import assume
 
@@ -293,7 +347,7 @@ def _make(kind: str):
         cm = next(i for i in range(8) if mask == i)
         cpf = True if parent_first else False
         with NoTracing():
-            return scenario(kind, cti, cto, cm, cpf)
+            return scenario(kind, cti, cto, cm, cpf, True if later_sibling else False)
 
     return p
 
@@ -302,13 +356,13 @@ def _replay(kind, a):
     from vt import lib
 
     lib.register()
-    return C04._wrap(scenario(kind, a["ti"], a["to"], a["mask"], a["parent_first"]))
+    return C04._wrap(scenario(kind, a["ti"], a["to"], a["mask"], a["parent_first"], a.get("later_sibling", False)))
 
 
 def obligations(tier: str) -> List[Ob]:
     return [
         Ob("C16.P", _make, _replay, params=list(KINDS), budget=600,
-           bound="18 wrapping paths; input and output type from a 3-type lattice, created-key set as a 3-bit mask, wrapping-order flag (subclass before/after parent) - all symbolic selectors; every leaf builds real nodes through the real factories",
+           bound="19 wrapping paths (incl. a class that is both source and sink); whether a second, different node of the same kind is generated before the catalogue is consulted (flag); input and output type from a 3-type lattice, created-key set as a 3-bit mask, wrapping-order flag (subclass before/after parent) - all symbolic selectors; every leaf builds real nodes through the real factories",
            targets=["semantiva/pipeline/nodes/_pipeline_node_factory.py:_pipeline_node_factory", "semantiva/data_processors/io_operation_factory.py:_IOOperationFactory.create_data_operation", "semantiva/data_processors/data_slicer_factory.py:_SlicingDataProcessorFactory.create", "semantiva/data_processors/parametric_sweep_factory.py:ParametricSweepFactory.create", "semantiva/context_processors/factory.py:_context_renamer_factory", "semantiva/contracts/expectations.py:validate_component"], stubs=["str"]),
     ]
 
